@@ -27,6 +27,8 @@ def classify(prog, symptom):
         return "odpor-barrier-fewer-executions-than-classes"
     if "t" in f["ops"]:
         return "odpor-commtest-classes-mismatch"
+    if f["nchild"] >= 2 and symptom == "count":
+        return "odpor-concurrent-actor-create-fewer-executions-than-classes"
     return None
 
 
